@@ -71,7 +71,8 @@ def project_dgrams(sent):
             out.append({'len': len(d), 'ids': [-1], 'sync': 0})
             continue
         sync = 1 if names and names[-1] == '/sync' else 0
-        ids = [int(n[1:]) if n[1:].isdigit() else -1 for n in (names[:-1] if sync else names)]
+        # the id is the run of digits in the address (addresses may carry non-ASCII text as well)
+        ids = [int(''.join(ch for ch in n if ch.isdigit()) or -1) for n in (names[:-1] if sync else names)]
         out.append({'len': len(d), 'ids': ids, 'sync': sync})
     return out
 
